@@ -170,6 +170,7 @@ func (c *VC) evalMulti(st *State, e ast.Expr) []*Term {
 		if mt, ok := c.mapModelled(c.typeOf(x.X)); ok {
 			h := c.eval(st, x.X)
 			k := c.coerce(st, c.eval(st, x.Index), c.typeOf(x.Index), mt.Key())
+			k = c.mapKey(mt, k)
 			v, okT := c.mapRead(st, mt, h, k)
 			return []*Term{v, okT}
 		}
@@ -518,6 +519,11 @@ func (c *VC) strConcat(st *State, a, b *Term) *Term {
 	if lb.Val != nil && lb.Val.Sign() == 0 {
 		return a
 	}
+	// string values are immutable: the same operands give the same result term
+	memoKey := a.String() + "\x00" + b.String()
+	if r, ok := c.catMemo[memoKey]; ok && !c.noName && c.quantDepth == 0 {
+		return r
+	}
 	arr := c.fresh("cat", ss.Fields[0].Sort)
 	i := c.boundVar("i", c.idxSort())
 	in := func(n *Term) *Term { return mkAnd(c.cmp(token.LEQ, c.idxLit(0), i, it), c.cmp(token.LSS, i, n, it)) }
@@ -530,7 +536,14 @@ func (c *VC) strConcat(st *State, a, b *Term) *Term {
 	}
 	c.addFact(tTrue, mkForall([]*Term{p}, mkImplies(mkAnd(c.cmp(token.LEQ, la, p, it), c.cmp(token.LSS, p, c.binop(token.ADD, la, lb, it), it)),
 		mkEq(mkSelect(arr, p), c.strByte(b, c.binop(token.SUB, p, la, it)))), mkSelect(arr, p)))
-	return mkCtor(ss, arr, c.idxLit(0), c.binop(token.ADD, la, lb, it))
+	res := mkCtor(ss, arr, c.idxLit(0), c.binop(token.ADD, la, lb, it))
+	if !c.noName && c.quantDepth == 0 {
+		if c.catMemo == nil {
+			c.catMemo = map[string]*Term{}
+		}
+		c.catMemo[memoKey] = res
+	}
+	return res
 }
 
 // ---------------------------------------------------------------- slices and indexing
@@ -604,6 +617,7 @@ func (c *VC) evalIndex(st *State, e *ast.IndexExpr) *Term {
 		if mt, ok := c.mapModelled(xt); ok {
 			h := c.eval(st, e.X)
 			k := c.coerce(st, c.eval(st, e.Index), c.typeOf(e.Index), mt.Key())
+			k = c.mapKey(mt, k)
 			v, _ := c.mapRead(st, mt, h, k)
 			return v
 		}
@@ -798,6 +812,19 @@ func (c *VC) evalCompositeLit(st *State, e *ast.CompositeLit) *Term {
 		n := c.idxLit(max)
 		return mkCtor(c.sliceSort(), base, c.idxLit(0), n, n)
 	case *types.Map:
+		if mt, ok := c.mapModelled(t); ok {
+			h := c.mapMake(st, mt)
+			for _, el := range e.Elts {
+				kv, ok := el.(*ast.KeyValueExpr)
+				if !ok {
+					continue
+				}
+				k := c.mapKey(mt, c.coerce(st, c.eval(st, kv.Key), c.typeOf(kv.Key), mt.Key()))
+				v := c.coerce(st, c.evalElt(st, kv.Value, mt.Elem()), c.typeOf(kv.Value), mt.Elem())
+				c.mapWrite(st, mt, h, k, v, kv.Pos(), exprText(c.prog.fset, kv))
+			}
+			return h
+		}
 		return c.fresh("maplit", sortInt)
 	}
 	c.unsupportedf(e.Pos(), "composite literal of %s", t)
@@ -873,7 +900,19 @@ func (c *VC) assign(st *State, lhs ast.Expr, v *Term) {
 			if mt, ok := c.mapModelled(xt); ok {
 				h := c.eval(st, l.X)
 				k := c.coerce(st, c.eval(st, l.Index), c.typeOf(l.Index), mt.Key())
+				k = c.mapKey(mt, k)
+				c.monotoneMapStore = false
+				if id, ok := ast.Unparen(l.X).(*ast.Ident); ok && len(c.frames) == 1 {
+					d := c.fn.Dir
+					if c.fn.Contract != nil {
+						d = c.fn.Contract.Dir
+					}
+					if d != nil && d.MonotoneMap[id.Name] {
+						c.monotoneMapStore = true
+					}
+				}
 				c.mapWrite(st, mt, h, k, v, l.Pos(), text)
+				c.monotoneMapStore = false
 				return
 			}
 			c.eval(st, l.X)
